@@ -71,7 +71,7 @@ static void ev_end(void) {
  * and exits; the parent waits.  If the child dies (fatal signal, watchdog) the parent - whose memory
  * the faulty call could not touch - publishes the inputs as an event of the SAME op with
  * "crash":<signal> (the spec judges it: never accepted) and goes on with the next case.
- * VH_NOFORK=1 runs everything in one process (then a crash ends the process: see fb_fatal). */
+ * A fifth argument "nofork" (or VH_NOFORK=1) runs everything in one process (then a crash ends the process: see fb_fatal). */
 static char safe_buf[1 << 20];
 static jmp_buf case_jmp;
 static void fork_point(void) {
@@ -996,7 +996,7 @@ int main(int argc, char **argv) {
 	}
 	in = vh_open(argc, argv, &start);
 	real_out = vh_out;
-	if (getenv("VH_NOFORK")) fork_mode = 0;
+	if (getenv("VH_NOFORK") || (argc > 4 && strcmp(argv[4], "nofork") == 0)) fork_mode = 0;
 	fb_install();
 	if (core_init() != RLC_OK) return 2;
 #if RAND == CALL
